@@ -28,6 +28,7 @@ def main():
     ap.add_argument("--tier", default=os.environ.get("VERIF_TIER", "quick"), choices=["quick", "thorough"])
     ap.add_argument("--replay", default=None)
     ap.add_argument("--no-lean", action="store_true", help="(development only) skip the Lean step")
+    ap.add_argument("--child", action="store_true", help="(internal) implementation-side search only; print the violations as JSON")
     args = ap.parse_args()
     prop = args.prop
     seed = int(os.environ.get("VERIF_SEED", "0") or 0)
@@ -46,7 +47,7 @@ def main():
         sys.exit(rc)
 
     # 1. proof obligations
-    if args.no_lean:
+    if args.no_lean or args.child:
         lean = {"ok": True, "obligations": ["(skipped)"], "discharged": ["(skipped)"], "problems": [], "checker_cmd": "skipped", "axioms": {}}
     else:
         try:
@@ -60,7 +61,14 @@ def main():
     # 2./3. correspondence + property predicates on the implementation
     res = C.Result(prop)
     ctx = {"tier": args.tier, "seed": seed, "thorough": args.tier == "thorough", "prop": prop}
-    twin_groups = tuple(getattr(mod, "JIT_TWIN", ()))
+    opt_child = None
+    if getattr(mod, "OPTIMIZED_TWIN", False) and not args.child:
+        # the same implementation-side search under `python -O` (PYTHONOPTIMIZE: `assert` statements and `if __debug__:` blocks
+        # are compiled away): validation that lives in an assert is no validation for a user running in optimised mode
+        import subprocess
+        opt_child = subprocess.Popen([sys.executable, "-O", "-m", "harness.run_check", prop, "--tier", args.tier, "--child"], cwd=str(C.VERIF),
+                                     env=dict(os.environ, VERIF_SEED=str(seed)), stdout=subprocess.PIPE, stderr=subprocess.PIPE, text=True)
+    twin_groups = tuple(getattr(mod, "JIT_TWIN", ())) if not args.child else ()
     twin = None
     if twin_groups:
         from . import jittwin
@@ -83,6 +91,28 @@ def main():
             jittwin.finish(twin, twin_groups, ctx, res, prop)
         except Exception as e:  # noqa: BLE001
             res.mismatch("numba-compiled vs interpreted", {"groups": list(twin_groups)}, "", "", note="twin comparison failed: " + repr(e))
+
+    if args.child:
+        print("CHILD-RESULT " + json.dumps(C.jsonable({"violations": res.violations, "mismatches": res.corr_mismatch[:10], "evaluations": res.evaluations})))
+        sys.exit(0)
+    if opt_child is not None:
+        try:
+            so, se = opt_child.communicate(timeout=3000)
+            line = [l for l in so.splitlines() if l.startswith("CHILD-RESULT ")]
+            if opt_child.returncode != 0 or not line:
+                res.mismatch("python -O twin", {}, "", "", note="the optimised-mode run of the implementation-side search failed: " + se[-500:])
+            else:
+                cr = json.loads(line[0][13:])
+                res.evaluations += cr["evaluations"]
+                res.count("python -O twin: evaluations", cr["evaluations"])
+                seen = {v["key"] for v in res.violations}
+                for v in cr["violations"]:
+                    if v["key"] not in seen:     # the same finding is not reported twice; one seen only in optimised mode says so
+                        res.violation(v["key"], "[only under python -O] " + v["what"], v.get("replay"))
+                for m_ in cr["mismatches"]:
+                    res.corr_mismatch.append(m_)
+        except Exception as e:  # noqa: BLE001
+            res.mismatch("python -O twin", {}, "", "", note="optimised-mode run failed: " + repr(e))
 
     # Escalation: a proof obligation or the correspondence is broken but no failing input has been seen yet:
     # search further (other seeds, same budget) on the implementation before giving up.
